@@ -386,7 +386,26 @@ def decoder_corpus(tier, seed):
             "keys.SigningKey.from_der": [sk.to_der(), sk.to_der(format="pkcs8")],
             "keys.SigningKey.from_pem": [sk.to_pem(), sk.to_pem(format="pkcs8")],
         }
+        # structure-level corruptions that byte-level mutation does not reach: a privateKey OCTET STRING of the wrong length
+        # (empty, short, long) inside an otherwise well-formed ECPrivateKey / PKCS#8 container, an empty or one-byte public BIT STRING
+        bl = (cv.order.bit_length() + 7) // 8
+        coid = S.enc_oid(cv.oid)
+        pkoid = S.enc_oid((1, 2, 840, 10045, 2, 1))
+        pb = vk.to_string("uncompressed")
+        structured = []
+        for klen in (0, 1, bl - 1, bl + 1, bl + 5):
+            for pub in (pb, b"", b"\x04"):
+                ecpk = S.enc_seq(S.enc_integer(1) + S.enc_octets(b"\x01" * klen) + S.enc_ctx(0, coid) + S.enc_ctx(1, S.enc_bits(pub, 0)))
+                structured.append(ecpk)
+                structured.append(S.enc_seq(S.enc_integer(0) + S.enc_seq(pkoid + coid) + S.enc_octets(ecpk)))
+        structured.append(S.enc_seq(S.enc_seq(pkoid + coid) + S.enc_bits(b"", 0)))
         for name, valids in seeds.items():
+            if name == "keys.SigningKey.from_der":
+                for m in structured:
+                    out.append((name, None, m))
+            if name == "keys.VerifyingKey.from_der":
+                for m in structured[-1:] + [S.enc_seq(S.enc_seq(pkoid + coid) + S.enc_bits(b"\x04", 0)), S.enc_seq(S.enc_seq(pkoid + coid) + S.enc_bits(b"\x02", 0))]:
+                    out.append((name, None, m))
             for v in valids:
                 muts = [v] + D.mutate(v, limit_len=10 ** 9) if not name.endswith("pem") else [v] + _pem_mutations(v)
                 if tier == "quick":
